@@ -5,7 +5,10 @@ Disinfection.on_enter_running_adjusting writes into the two REAL PWM actors vs M
 dyadic grid (exact) and on random floats (tolerance band); (2) tick-level correspondence of the real PWM with the Lean
 driver.  Monitors on real behaviour decide the statement: duty in [0,1], sign, monotone, disabled => 0; duty 0 => never
 on; pulses >= min_runtime unless cut by cancel (or by the security cap); on-fraction over n whole periods at constant
-duty within two ticks per period of the rounded duty."""
+duty within two ticks per period of the rounded duty.  The on-fraction clause is PROVED (Proofs/PwmFraction.lean:
+c20_phase_lengths, c20_cycles, c20_cycle_fraction, c20_on_fraction, c20_zero_on, c20_full_on); the monitor keeps deciding
+the property's statement on real traces and additionally compares every real constant-duty trace with what those
+theorems predict (phase lengths, |onTime - n*dutyOn'| <= n*dt)."""
 from __future__ import annotations
 
 import json
@@ -29,6 +32,16 @@ THEOREMS = [
     "Poupool.C20.c20_zero_never_on",
     "Poupool.C20.c20_pulse_min_runtime",
     "Poupool.C20.c20_on_fraction_partial",
+    "Poupool.C20.c20_fresh_boundary",
+    "Poupool.C20.c20_phase_lengths",
+    "Poupool.C20.c20_cycles",
+    "Poupool.C20.c20_cycle_fraction",
+    "Poupool.C20.c20_on_fraction",
+    "Poupool.C20.c20_zero_on",
+    "Poupool.C20.c20_full_on",
+    "Poupool.C20.c20_boundary_again",
+    "Poupool.C20.c20_no_cap_of_budget",
+    "Poupool.C20.c20_on_fraction_without_cap_hypothesis_counterexample",
 ]
 
 ASSUMPTIONS = [
@@ -37,7 +50,9 @@ ASSUMPTIONS = [
     "0 <= min_runtime <= period (dispatcher/constructor: periods 10..600 s, min_runtime 3 s); with min_runtime > period the PWM never switches off by itself",
     "time.time() and datetime.now() read within one do_run are the same instant; ticks every 1 s with jitter <= 0.5 s (dt <= 1.5 s) where a tick bound is used",
     "a pulse cut by the security cap (C03) may be shorter than min_runtime: exempted like a halt, counted in the evidence",
-    "on-fraction: PROVED only the lower half per pulse (a pulse that ends by itself lasted >= dutyOn' >= min_runtime, c20_pulse_min_runtime / c20_on_fraction_partial) and duty 0 => never on; NOT proved: pulse < dutyOn'+dt, gap bounds, and |onTime - n*dutyOn'| <= 2*n*dt over n whole wall-clock periods from a fresh start -- that statement is decided by the monitor on every constant-duty trace of the real class (worst observed deviation per period is in coverage.monitor_pwm)",
+    "on-fraction: PROVED for every duty in [0,1], period > 0, 0 <= min_runtime <= period, every tick-gap sequence with gaps in [0, dt] (the property's 0.5..1.5 s is a special case; no side condition relating dt to the phase lengths), at constant value/period/min_runtime, no do_cancel during the window, from a cycle boundary (= the first do_run after construction or after do_cancel + do_run, c20_fresh_boundary; or any do_run that switched the pump off, c20_boundary_again), while no do_run finds the security timer elapsed (C03 takes precedence over the duty; sufficient budget condition c20_no_cap_of_budget): every completed pulse lasts in [dutyOn', dutyOn'+dt), every completed pause in [period-dutyOn', period-dutyOn'+dt) (c20_phase_lengths); over n completed cycles n*dutyOn' <= onTime < n*(dutyOn'+dt) and n*period <= elapsed < n*(period+2dt) (c20_cycles) and |onTime/elapsed - dutyOn'/period| < dt/period (c20_cycle_fraction); over the wall-clock window [first do_run, first do_run + n*period] |onTime - n*dutyOn'| <= n*dt, all duties incl. 0 and 100 % (c20_on_fraction) -- one maximal tick gap per period, the property allows two; dutyOn' = 0 never on (c20_zero_on), dutyOn' = period on from the second do_run for ever (c20_full_on)",
+    "reading of 'over any whole number of PWM periods ... from a fresh start': windows that start at the first do_run of the fresh start (the first phase of the PWM is an OFF pause of length period-dutyOn' measured from that do_run) and last n*period wall-clock (c20_on_fraction), or contain n completed (pause, pulse) cycles (c20_cycles / c20_cycle_fraction); windows starting at an arbitrary instant inside a phase are not covered by a theorem",
+    "the proved statements are about the exact-rational model; the real class is tied to it by the tick-level correspondence and by the prediction monitor (every real constant-duty trace is compared with the phase-length and n*dt bounds of the theorems); binary64 rounding of non-dyadic inputs is outside the proof",
 ]
 
 DMAX_US = 1_500_000
@@ -166,8 +181,87 @@ def pcontroller(chk, rng, use_lean):
 
 
 # ---------------------------------------------------------------------------------------------------------
+def monitor_predictions(tr, dmax_us):
+    """What c20_phase_lengths / c20_on_fraction predict for a constant-duty trace from a fresh start (judged up to the
+    first security cut): every completed pulse in [on', on'+dmax), every completed pause (the first one measured from
+    the first do_run) in [off', off'+dmax) (<= when on' = period), and |onTime - n*on'| <= n*dmax over [t0, t0+n*P].
+    Returns (list of deviations, stats)."""
+    ops = tr.ops
+    period = Fraction(ops[0][1])
+    minrt = Fraction(ops[0][2])
+    v = [Fraction(op[1]) for op in ops if op[0] == "value"][0]
+    on = pc.duty_on_spec(v, period, minrt) * pc.SEC
+    off = period * pc.SEC - on
+    ticks = [op[1] for op in ops if op[0] == "tick"]
+    out = []
+    st = {"pulses": 0, "pauses": 0, "windows": 0, "max_pulse_excess_us": 0, "max_pause_excess_us": 0, "worst_window_dev_per_period_us": 0.0}
+    if len(ticks) < 2:
+        return out, st
+    gaps = [b - a for a, b in zip(ticks, ticks[1:])]
+    if max(gaps) > dmax_us or min(gaps) < 0:
+        return out, st
+    limit = min([t for (t, why) in tr.offs if why == "security"] + [tr.end_us])
+    start = ticks[0]
+    cuts = {t for (t, why) in tr.offs if why == "security"}
+    for t, lv in tr.pump_log:
+        if t > limit or t in cuts:
+            break
+        length = t - start
+        if lv:  # a pause [start, t] completed
+            st["pauses"] += 1
+            st["max_pause_excess_us"] = max(st["max_pause_excess_us"], float(length - off))
+            ok = off <= length and (length < off + dmax_us or (on == period * pc.SEC and length <= dmax_us))
+            if not ok:
+                out.append({"what": "pause length outside [off', off'+dt)", "from_us": start, "to_us": t, "off_us": pc.frs(off)})
+        else:
+            st["pulses"] += 1
+            st["max_pulse_excess_us"] = max(st["max_pulse_excess_us"], float(length - on))
+            if not (on <= length < on + dmax_us):
+                out.append({"what": "pulse length outside [on', on'+dt)", "from_us": start, "to_us": t, "on_us": pc.frs(on)})
+        start = t
+    P = int(period * pc.SEC)
+    n = 1
+    while ticks[0] + n * P <= limit:
+        e = pc.energised_between(tr.pump_log, ticks[0], ticks[0] + n * P, tr.end_us)
+        dev = abs(Fraction(e) - n * on)
+        st["windows"] += 1
+        st["worst_window_dev_per_period_us"] = max(st["worst_window_dev_per_period_us"], float(dev / n))
+        if dev > n * dmax_us:
+            out.append({"what": "|onTime - n*on'| > n*dt over [t0, t0+n*P]", "n": n, "energised_us": e, "expected_us": pc.frs(n * on)})
+            break
+        n += 1
+    return out, st
+
+
+def replay_lean_witnesses(chk):
+    """The concrete runs named in Properties/C20.lean, on the REAL class: (a) halfStart/halfGaps (duty 1/2, P = 10 s, gaps
+    1.5 s / 0.5 s alternating; the non-vacuity examples of c20_phase_lengths / c20_cycles / c20_on_fraction), (b) the witness
+    of c20_on_fraction_without_cap_hypothesis_counterexample (SECURITY_DURATION 5 s, duty 1: cut at 6 s)."""
+    bad = []
+    ops = [["new", "10/1", "3/1", 7200, 0], ["value", "1/2"], ["tick", 0]]
+    t = 0
+    for _ in range(20):
+        for g in (1500000, 500000):
+            t += g
+            ops.append(["tick", t])
+    tr = pc.run_real(ops)
+    want = [(5500000, 1), (11500000, 0), (17500000, 1), (23500000, 0), (29500000, 1), (35500000, 0)]
+    if tr.pump_log != want or pc.energised_between(tr.pump_log, 0, 30000000, tr.end_us) != 12500000:
+        bad.append({"witness": "halfStart/halfGaps", "real_pump_log": tr.pump_log, "lean": want})
+    ops = [["new", "10/1", "3/1", 5, 0], ["value", "1/1"]] + [["tick", k * 1000000] for k in range(11)]
+    tr = pc.run_real(ops)
+    e = pc.energised_between(tr.pump_log, 0, 10000000, tr.end_us)
+    if tr.pump_log != [(1000000, 1), (6000000, 0)] or e != 5000000 or [w for (_, w) in tr.offs] != ["security"]:
+        bad.append({"witness": "c20_on_fraction_without_cap_hypothesis_counterexample", "real_pump_log": tr.pump_log,
+                    "real_offs": tr.offs, "lean": "on at 1 s, security cut at 6 s, 5 s energised in [0 s, 10 s]"})
+    chk.correspondence("concrete runs of Properties/C20.lean (non-vacuity run, cap-hypothesis witness) replayed on the real PWM class",
+                       2, len(bad), detail=bad or None)
+
+
 def monitor_all(chk, runs):
     found = {}
+    pred = {"traces": 0, "deviating": 0, "pulses": 0, "pauses": 0, "windows": 0, "max_pulse_excess_us": 0, "max_pause_excess_us": 0,
+            "worst_window_dev_per_period_us": 0.0, "first_deviations": []}
     stats = {"pulses": 0, "cut_by_cancel": 0, "cut_by_security": 0, "short_after_duty_change": 0, "const_traces": 0,
              "worst_fraction_dev_per_period_us": 0.0, "min_len_minus_minrt_us": None}
 
@@ -195,8 +289,26 @@ def monitor_all(chk, runs):
             for x in v2[:1]:
                 key = "pwm-zero-duty-on" if "duty 0" in x["what"] else "pwm-on-fraction"
                 report(key, x["what"], ops, meta, x, tr.end_us)
+            dev, pst = monitor_predictions(tr, DMAX_US)
+            pred["traces"] += 1
+            pred["deviating"] += 1 if dev else 0
+            for k in ("pulses", "pauses", "windows"):
+                pred[k] += pst[k]
+            for k in ("max_pulse_excess_us", "max_pause_excess_us", "worst_window_dev_per_period_us"):
+                pred[k] = max(pred[k], pst[k])
+            if dev and len(pred["first_deviations"]) < 3:
+                pred["first_deviations"].append({"new": ops[0], "meta": meta, "deviation": dev[0]})
+    if pred["traces"]:
+        # the real class must behave as the theorems about the model say (a deviation is a broken tie, not by itself a
+        # violation of the property: the property's own statement is decided above with its two-tick bound)
+        chk.correspondence(
+            "real constant-duty traces vs the bounds proved in c20_phase_lengths / c20_on_fraction (pulse in [on',on'+dt), pause in [off',off'+dt), |onTime-n*on'| <= n*dt, dt = 1.5 s)",
+            pred["traces"], pred["deviating"],
+            distribution={k: pred[k] for k in pred if k != "first_deviations"},
+            detail=pred["first_deviations"] or None)
     chk.extra["monitor_pwm"] = dict(stats, statement="no pulse < min_runtime unless cut by cancel (or the security cap); duty 0 => never on; "
-                                    "|onTime - n*dutyOn'| <= 2*n*1.5 s over n whole periods at constant duty from a fresh start")
+                                    "|onTime - n*dutyOn'| <= 2*n*1.5 s over n whole periods at constant duty from a fresh start "
+                                    "(the property's bound; the theorems give n*1.5 s, compared separately under correspondence)")
     return sum(found.values())
 
 
@@ -208,11 +320,12 @@ def run(chk):
         lean_ok = lean.check_theorems(chk, "Poupool.Properties.C20", THEOREMS)
         lean_ok = lean_ok or lean.build(["Poupool.Generated.PwmConfig"])[0]
         if chk.tier == "thorough" and lean_ok:
-            pc.leanchecker(chk, ["Poupool.Model.Pwm", "Poupool.Generated.PwmConfig", "Poupool.Proofs.PwmCap", "Poupool.Proofs.PwmDuty", "Poupool.Properties.C20"])
+            pc.leanchecker(chk, ["Poupool.Model.Pwm", "Poupool.Generated.PwmConfig", "Poupool.Proofs.PwmCap", "Poupool.Proofs.PwmDuty", "Poupool.Proofs.PwmFraction", "Poupool.Properties.C20"])
     rng, pl = plan(chk)
     pcontroller(chk, rng, lean_ok)
     runs = pc.campaign(chk, rng, pl, use_lean=lean_ok)
     monitor_all(chk, runs)
+    replay_lean_witnesses(chk)
     chk.extra["rule"] = "theorems of Properties/C20.lean over the regenerated constants; correspondence cases and monitor traces generated from VERIF_SEED"
     chk.extra["distinct_nontrivial"] = len(runs)
 
